@@ -34,8 +34,8 @@ ASSUMPTIONS = [
 EXHAUSTIVE = {"quick": False, "thorough": False}
 FLOORS = {"quick": {"cases": 2000, "status:NO": 700, "status:BYE": 500, "status:OK": 500,
                     "sentinel-pairs": 1200, "random-cases": 3000},
-          "thorough": {"cases": 300000, "status:NO": 100000, "status:BYE": 50000,
-                       "status:OK": 50000, "sentinel-pairs": 100000, "random-cases": 300000}}
+          "thorough": {"cases": 1500000, "status:NO": 500000, "status:BYE": 250000,
+                       "status:OK": 250000, "sentinel-pairs": 500000, "random-cases": 1500000}}
 SHARD_TIMEOUT = {"quick": 600, "thorough": 3000}
 
 CODES = [("none", None), ("atom", b"QUOTA"), ("slash", b"QUOTA/MAXSCRIPTS"),
@@ -71,7 +71,7 @@ def plan(tier, seed):
     n = len(all_cases())
     shards = [{"w": "product", "range": [s, e]} for s, e in split(n, 16)]
     shards.append({"w": "multistep"})
-    nr = 4000 if tier == "quick" else 400000
+    nr = 4000 if tier == "quick" else 2000000
     for i, (s, e) in enumerate(split(nr, 16 if tier == "quick" else 64)):
         shards.append({"w": "random", "n": e - s, "rs": seed * 1000003 + i})
     return shards
